@@ -119,18 +119,22 @@ def deleteElem (a : Arr) (k : Int) : Res Arr :=
 
 /-! ### expand/environ.go -/
 
-/-- `Variable.indexedVal(i)`: `ok none` is `("", false)`. -/
+/-- `Variable.indexedVal(i)`: `ok none` is `("", false)`; `v.List[pos]` out of range panics. -/
 def indexedVal (a : Arr) (i : Int) : Res (Option Str) :=
   match a.idx with
   | some ix =>
     let (pos, found) := search ix i
     if found then
-      if h : pos < a.list.length then .ok (some a.list[pos]) else .panic
+      match a.list[pos]? with
+      | some s => .ok (some s)
+      | none => .panic
     else .ok none
   | none =>
     if i < a.list.length then
       if i < 0 then .panic
-      else if h : i.toNat < a.list.length then .ok (some a.list[i.toNat]) else .panic
+      else match a.list[i.toNat]? with
+        | some s => .ok (some s)
+        | none => .panic
     else .ok none
 
 /-- `Variable.indexedKeys()` (as integers; the Go code prints them with `strconv.Itoa`). -/
@@ -199,11 +203,12 @@ inductive Kind where
     the `a[i]+=v` path. -/
 structure Var where
   kind : Kind
+  set : Bool       -- Variable.Set: what `IsSet` reports, and what the `unset` builtin looks at
   str : Str
   arr : Arr
   deriving DecidableEq, Repr
 
-def Var.zero : Var := ⟨.unknown, [], ⟨[], none⟩⟩
+def Var.zero : Var := ⟨.unknown, false, [], ⟨[], none⟩⟩
 
 /-- One element of an array literal: `w` or `[i]=w` (indices already evaluated). -/
 inductive Elem where
@@ -246,12 +251,14 @@ def baseArr (v : Var) : Arr :=
   | .indexed => v.arr
 
 /-- `setVarWithIndex` with a non-nil index `k` and value `valStr`.  An out-of-range negative index
-    reports "bad array subscript" and leaves the variable alone. -/
+    reports "bad array subscript" and leaves the variable alone.  The variable stored is the
+    caller's `prev` (not the copy on which `assignVal` did `prev.Set = true`), so `Set` keeps its
+    old value: an array created by `a[i]=v` is not `IsSet()`. -/
 def setWithIndex (v : Var) (base : Arr) (k : Int) (valStr : Str) : Res Var :=
   let k' := if k < 0 then k + (indexedMax base + 1) else k
   if k' < 0 then .ok v
   else match setElem base k' valStr with
-    | .ok a' => .ok ⟨.indexed, v.str, a'⟩
+    | .ok a' => .ok ⟨.indexed, v.set, v.str, a'⟩
     | .panic => .panic
 
 /-- `assignVal`'s `a+=s` on an indexed array: "Appends to the element at index 0". -/
@@ -265,8 +272,9 @@ def appendZero (a : Arr) (s : Str) : Res Arr :=
       if i0 = 0 then .ok ⟨(x ++ s) :: xs, some (i0 :: is)⟩ else setElem a 0 s
   | [] => setElem a 0 s
 
+/-- The array variable `assignVal` returns (`prev.Set = true`), stored as is. -/
 def liftArr (v : Var) : Res Arr → Res Var
-  | .ok a => .ok ⟨.indexed, v.str, a⟩
+  | .ok a => .ok ⟨.indexed, true, v.str, a⟩
   | .panic => .panic
 
 /-- One assignment / unset statement on one variable: `assignVal` followed by `setVarWithIndex`
@@ -278,11 +286,11 @@ def applyOp (v : Var) : Op → Res Var
   | .setStr s =>
     match v.kind with
     | .indexed => setWithIndex v v.arr 0 s          -- "fall back to the zero value for the index"
-    | _ => .ok ⟨.str, s, v.arr⟩
+    | _ => .ok ⟨.str, true, s, v.arr⟩
   | .appStr s =>
     match v.kind with
     | .indexed => liftArr v (appendZero v.arr s)
-    | _ => .ok ⟨.str, v.str ++ s, v.arr⟩
+    | _ => .ok ⟨.str, true, v.str ++ s, v.arr⟩
   | .appElem i s =>
     match v.kind with
     | .indexed =>
@@ -308,11 +316,11 @@ def applyOp (v : Var) : Op → Res Var
       let k := if i < 0 then i + (indexedMax v.arr + 1) else i
       if k < 0 then .ok v
       else match deleteElem v.arr k with
-        | .ok a' => .ok ⟨.indexed, v.str, a'⟩
+        | .ok a' => .ok ⟨.indexed, v.set, v.str, a'⟩
         | .panic => .panic
     | .str => if i = 0 then .ok Var.zero else .ok v    -- only the literal subscript "0" deletes
     | .unknown => .ok v
-  | .unsetAll => .ok Var.zero
+  | .unsetAll => if v.set then .ok Var.zero else .ok v   -- builtin unset: `lookupVar(arg).IsSet()`
 
 def runOps (v : Var) : List Op → Res Var
   | [] => .ok v
@@ -351,11 +359,8 @@ def maxKey : SMap → Int
   | [(k, _)] => k
   | _ :: p :: m => maxKey (p :: m)
 
-/-- Keys strictly increasing. -/
-def Sorted : SMap → Prop
-  | [] => True
-  | [_] => True
-  | a :: b :: m => a.1 < b.1 ∧ Sorted (b :: m)
+/-- Keys strictly increasing (hence unique): the canonical form of a finite map. -/
+def Sorted (m : SMap) : Prop := m.Pairwise (fun a b => a.1 < b.1)
 
 end SMap
 
@@ -429,10 +434,7 @@ def Var.abs (v : Var) : SMap :=
   | .str => [(0, v.str)]
   | .indexed => v.arr.abs
 
-def Increasing : List Int → Prop
-  | [] => True
-  | [_] => True
-  | a :: b :: r => a < b ∧ Increasing (b :: r)
+def Increasing (l : List Int) : Prop := l.Pairwise (· < ·)
 
 /-- The representation invariant documented at `Variable.Indexes`: indices unique, non-negative,
     sorted, as many as the list elements; nil iff the array is dense. -/
@@ -440,6 +442,44 @@ structure Arr.WF (a : Arr) : Prop where
   shape : ∀ ix, a.idx = some ix →
     ix.length = a.list.length ∧ Increasing ix ∧ (∀ k ∈ ix, 0 ≤ k) ∧ isIotaFrom 0 ix = false
 
-def Var.WF (v : Var) : Prop := v.arr.WF
+/-- Variables: the array part is well-formed, and an unset variable carries no stale string
+    (it is the zero `expand.Variable`). -/
+structure Var.WF (v : Var) : Prop where
+  arr : v.arr.WF
+  zero : v.kind = .unknown → v.str = []
+
+/-! ### Where the code is known to differ from bash (the three recorded findings), as a
+    decidable side condition on a run -/
+
+/-- No explicit subscript of the literal is still negative after resolution (bash skips such an
+    element and goes on; the Go loop `break`s — finding C33-literal-bad-subscript). -/
+def litOK (m : SMap) (index : Int) : List Elem → Bool
+  | [] => true
+  | .plain v :: rest => litOK (m.insert index v) (index + 1) rest
+  | .at i v :: rest =>
+    let j := resolve m i
+    decide (0 ≤ j) && litOK (m.insert j v) (j + 1) rest
+
+/-- The operation is outside the recorded divergences when applied to `v`:
+    * `a[i]+=s` only on an unset variable (finding C33-elem-append);
+    * `unset a` only on a variable that `IsSet()` (finding C33-unset-after-elem-assign);
+    * literals without out-of-range negative subscripts (finding C33-literal-bad-subscript);
+    * `unset 's[-n]'` not on a scalar (bash and the code both refuse; a scalar is not quite the
+      map `{0 ↦ s}` there). -/
+def opOK (v : Var) : Op → Bool
+  | .assign es => litOK [] 0 es
+  | .append es => litOK v.abs (v.abs.maxKey + 1) es
+  | .appElem _ _ => v.kind == .unknown
+  | .unsetElem i => v.kind != .str || decide (0 ≤ i)
+  | .unsetAll => v.set || v.kind == .unknown
+  | _ => true
+
+def runOK (v : Var) : List Op → Bool
+  | [] => true
+  | op :: ops =>
+    opOK v op &&
+      match applyOp v op with
+      | .ok v' => runOK v' ops
+      | .panic => false
 
 end ShVerif.C33
